@@ -244,6 +244,84 @@ func c11Scripted(res *vlib.Result, v c11Tok, dev peerDev) {
 	res.Outcome("scripted-rejected")
 }
 
+// c11Boundary judges the time claims AT their limits. Tokens are minted for a
+// chosen wall-clock second T a little in the future; the harness waits until the
+// clock reads T, runs the verification (microseconds) or the scripted handshake
+// (milliseconds), and keeps the verdict only if the clock still reads T
+// afterwards - otherwise it re-aligns on a later second. No verdict depends on
+// how long anything took.
+func c11Boundary(res *vlib.Result, viaHandshake bool) {
+	e := getTokenEnv()
+	type bt struct {
+		name  string
+		claim func(T int64) map[string]any
+		valid bool
+	}
+	base := func(T int64, over map[string]any) map[string]any {
+		p := map[string]any{"sub": "alice@verif.domain", "iss": "verif.domain", "iat": T - 10, "exp": T + 3600, "jti": "abcdef0123456789"}
+		for k, v := range over {
+			p[k] = v
+		}
+		return p
+	}
+	cases := []bt{
+		{"exp==now", func(T int64) map[string]any { return base(T, map[string]any{"exp": T}) }, false},
+		{"exp==now+1", func(T int64) map[string]any { return base(T, map[string]any{"exp": T + 1}) }, true},
+		{"exp==now-1", func(T int64) map[string]any { return base(T, map[string]any{"exp": T - 1}) }, false},
+		{"iat==now-maxage", func(T int64) map[string]any { return base(T, map[string]any{"iat": T - c11MaxAge}) }, true},
+		{"iat==now-maxage-1", func(T int64) map[string]any { return base(T, map[string]any{"iat": T - c11MaxAge - 1}) }, false},
+		{"iat==now", func(T int64) map[string]any { return base(T, map[string]any{"iat": T}) }, true},
+	}
+	for _, c := range cases {
+		aligned := false
+		for attempt := 0; attempt < 8 && !aligned; attempt++ {
+			T := time.Now().Unix() + 1
+			tok := mintToken(e.PoolKey, "POOL", nil, c.claim(T))
+			for time.Now().Unix() < T {
+				time.Sleep(200 * time.Microsecond)
+			}
+			var accepted bool
+			var detail string
+			if viaHandshake {
+				_, sc := c11Cfgs("")
+				out := &peerOutcome{}
+				r := hsRun(hsOpts{ServerCfg: sc, ClientScript: scriptedClient(peerDev{Token: tok, Methods: "TOKEN", ClaimLevelAuth: "REQUIRED", ClaimLevelEnc: "NEVER", NoCipher: true}, out), App: true})
+				if r.S.Neg != nil {
+					security.GetSessionCache().Invalidate(r.S.Neg.SessionId)
+				}
+				accepted, detail = r.S.Err == nil && r.S.Neg != nil, errStr(r.S.Err)
+			} else {
+				_, sc := c11Cfgs("")
+				_, err := security.VerifyIDToken(tok, sc)
+				accepted, detail = err == nil, errStr(err)
+			}
+			if time.Now().Unix() != T {
+				continue // the clock moved on during the call: no verdict, align again
+			}
+			aligned = true
+			res.Evals++
+			res.Nontrivial++
+			refValid, _, why := refVerify(tok, T)
+			if refValid != c.valid {
+				res.Violate("C11/harness-boundary", "%s: reference verdict %v (%s) differs from the table", c.name, refValid, why)
+				continue
+			}
+			how := map[bool]string{true: "handshake", false: "verify"}[viaHandshake]
+			if accepted && !c.valid {
+				res.Violate("C11/time-boundary/accepts-invalid/"+how+"/"+c.name, "token with %s evaluated during that very second was accepted (%s)", c.name, how)
+			}
+			if !accepted && c.valid {
+				res.Violate("C11/time-boundary/rejects-valid/"+how+"/"+c.name, "token with %s evaluated during that very second was rejected (%s): %s", c.name, how, detail)
+			}
+			res.Outcome("boundary-" + c.name + "-" + map[bool]string{true: "accepted", false: "rejected"}[accepted])
+		}
+		if !aligned {
+			res.Skipped++
+			res.Outcome("boundary-not-aligned")
+		}
+	}
+}
+
 // AKEP2 message positions in a TOKEN handshake (frame index per direction).
 const (
 	c11Step1 = 2 // c2s
@@ -531,7 +609,7 @@ func c11Verify(res *vlib.Result, label, class, tok string) {
 func C11Plan() *vlib.Plan {
 	p := &vlib.Plan{
 		Property: "C11", Level: "fault_enumeration",
-		Rule:   "E-FAULT: (1) 20 token variants and every single-bit flip of a valid token string, each through a real client/server TOKEN handshake (no cipher, so the AKEP2 result is the result); (2) for each of the three AKEP2 messages: every byte offset (header and payload) x {^01,^80}, truncation at every 8th byte, 1/8 trailing bytes appended, for step 1 a field-aware substitution of the claimed client identity by {bob, empty, +1 char}, and field-aware alterations of every field of every message (status := 1/-1/2/256; each proof, nonce and nonce echo := empty / first byte only / last byte dropped / one zero byte added / all zero / length 0 or length-1 with the bytes kept; each identity echo := empty / bob / +1 char); (3) VerifyIDToken on the same variants and bit flips; (4) an independent scripted AKEP2 client (own HKDF/HMAC arithmetic) against the real server: 20 token variants (incl. those cedar's client refuses to send) x claimed identity {the subject, bob, root} x proof {honest, empty, wrong, computed over the identity the server echoed} x RB echo {honest, empty, wrong} x {no, one} trailing byte. Oracle: independent HKDF+HMAC verifier with the same time rules (variants sit 120 s away from the limits); server success => token valid and no client message altered outside the claimed-identity field; client success => server message unaltered; recorded user = token subject. Non-trivial = the mutated element reached the receiving side.",
+		Rule:   "E-FAULT: (1) 20 token variants and every single-bit flip of a valid token string, each through a real client/server TOKEN handshake (no cipher, so the AKEP2 result is the result); (2) for each of the three AKEP2 messages: every byte offset (header and payload) x {^01,^80}, truncation at every 8th byte, 1/8 trailing bytes appended, for step 1 a field-aware substitution of the claimed client identity by {bob, empty, +1 char}, and field-aware alterations of every field of every message (status := 1/-1/2/256; each proof, nonce and nonce echo := empty / first byte only / last byte dropped / one zero byte added / all zero / length 0 or length-1 with the bytes kept; each identity echo := empty / bob / +1 char); (3) VerifyIDToken on the same variants and bit flips; (4) an independent scripted AKEP2 client (own HKDF/HMAC arithmetic) against the real server: 20 token variants (incl. those cedar's client refuses to send) x claimed identity {the subject, bob, root} x proof {honest, empty, wrong, computed over the identity the server echoed} x RB echo {honest, empty, wrong} x {no, one} trailing byte; (5) time claims AT their limits (exp = now-1 / now / now+1, iat = now / now-max / now-max-1) through VerifyIDToken and through the scripted client, each call aligned on a wall-clock second and kept only if the clock still shows that second afterwards. Oracle: independent HKDF+HMAC verifier with the same time rules (variants sit 120 s away from the limits); server success => token valid and no client message altered outside the claimed-identity field; client success => server message unaltered; recorded user = token subject. Non-trivial = the mutated element reached the receiving side.",
 		Assume: []string{"base64 decoding is shared with the code (non-canonical trailing bits that decode identically are the same token)", "time-dependent variants are 120 s away from the boundary"},
 	}
 	p.Gen = func(tier string, yield func(vlib.Case)) {
@@ -563,6 +641,16 @@ func C11Plan() *vlib.Plan {
 				return res
 			}})
 		}
+		yield(vlib.Case{ID: "time-boundary/verify", Run: func() *vlib.Result {
+			res := &vlib.Result{}
+			c11Boundary(res, false)
+			return res
+		}})
+		yield(vlib.Case{ID: "time-boundary/handshake", Run: func() *vlib.Result {
+			res := &vlib.Result{}
+			c11Boundary(res, true)
+			return res
+		}})
 		good := vars[0].tok
 		d1 := strings.Index(good, ".")
 		d2 := strings.LastIndex(good, ".")
